@@ -275,10 +275,15 @@ func Run(cfg Config, body func()) *Outcome {
 	ep := sc.epoch + 1
 	*sc = scheduler{cfg: cfg, epoch: ep, endCh: make(chan struct{}, 1), objs: make(map[unsafe.Pointer]*Obj), now: 1_700_000_000_000_000_000}
 	resetPools()
-	for _, f := range resetHooks {
-		f()
-	}
-	t0 := sc.newThread("main", body, nil)
+	t0 := sc.newThread("main", func() {
+		// reset hooks re-create process-global state; they run as the
+		// first steps of thread 0 so that their shim operations are
+		// ordinary (choice-free) steps of the execution
+		for _, f := range resetHooks {
+			f()
+		}
+		body()
+	}, nil)
 	sc.cur = t0
 	sc.launch(t0)
 	t0.pend = pending{}
